@@ -320,6 +320,15 @@ class Replayer:
       d[pg.KeyPath(keys)] = self.vd(v)
     o.rebind(d, notify_parents=notify_parents, skip_notification=True if skip else None)
 
+  def do_Construct(self, k, vds):
+    vals = [self.vd(v) for v in vds]
+    with pg.allow_writable_accessors(None), pg.as_sealed(None):
+      if k == 'list':
+        return pg.List(vals)
+      if k == 'dict':
+        return pg.Dict({DKEYS[i + 1]: v for i, v in enumerate(vals)})
+      return A(**{OKEYS[i + 1]: v for i, v in enumerate(vals)})
+
   def do_Clone(self, n, deep):
     # clone(deep), pg.clone and the copy module must coincide: one of them (alternating) is bound to the model, the
     # others are compared with it right away (same structure, same flags on every node, no shared symbolic node)
@@ -539,7 +548,7 @@ class Replayer:
       if type(o) is not want_cls:
         raise Divergence('content', f'node {n}: class {type(o).__name__} expected {want_cls.__name__}')
     # -- returned value
-    if 'ret' in self.clauses and out_kind == 'ok' and st['act'][0] in ('DictPop', 'DictPopItem', 'ListPop', 'DictSetDefault', 'Clone', 'JsonRoundTrip'):
+    if 'ret' in self.clauses and out_kind == 'ok' and st['act'][0] in ('DictPop', 'DictPopItem', 'ListPop', 'DictSetDefault', 'Clone', 'JsonRoundTrip', 'Construct'):
       # a value read through an accessor is the *referenced* object when the stored leaf is a pg.Ref
       if not (self.match_value(spec_out['ret'], ret) or (spec_out['ret'] == RF and ret is SHARED)):
         # setdefault returns the passed default (a plain container) when it inserts; only leaves are generated
